@@ -260,7 +260,7 @@ def gen_encoding(rng: random.Random, tier: str) -> dict:
     order = rng.sample(levels, n) if explicit and rng.random() < 0.5 else levels
     return {"n": n, "kind": kind, "opts": o, "labels": labels, "data": data, "explicit_levels": explicit,
             "level_order": order if explicit else None, "reduced": rng.random() < 0.6,
-            "output": rng.choice(["pandas", "numpy", "sparse"]), "path": rng.choice(["direct", "formula", "formula", "apply"])}
+            "output": rng.choice(["pandas", "numpy", "sparse"]), "path": rng.choice(["direct", "formula", "formula", "apply", "state_categories"])}
 
 
 def judge_encoding(case) -> Outcome:
@@ -302,6 +302,10 @@ def judge_encoding(case) -> Outcome:
                                        reduced_rank=case["reduced"], output=case["output"], _state={})
                 got = arr(getattr(enc, "__wrapped__", enc))
                 names = list(enc.__formulaic_metadata__.column_names)
+            elif case["path"] == "state_categories":  # hand-written encoder state: just the level list, as the library documents
+                enc = encode_contrasts(series, contrasts=c, reduced_rank=case["reduced"], output=case["output"], _state={"categories": list(levels)})
+                got = arr(getattr(enc, "__wrapped__", enc))
+                names = list(enc.__formulaic_metadata__.column_names)
             elif case["path"] == "apply":  # the contrasts applied to an indicator matrix held in the container the output type names
                 import scipy.sparse as sp
 
@@ -333,7 +337,7 @@ def judge_encoding(case) -> Outcome:
     if not ok:
         out.fail("c11.encoding", f"{tag}: encoded rows {got[:3].tolist()} != indicator @ coding {expected[:3].tolist()} (shape {got.shape} vs {expected.shape})")
     exp_names = [str(x) for x in c.get_coding_column_names(levels, reduced_rank=case["reduced"])]
-    if case["path"] in ("direct", "apply"):
+    if case["path"] in ("direct", "apply", "state_categories"):
         if [str(x) for x in names] != exp_names:
             out.fail("c11.encoding_names", f"{tag}: names {names} != {exp_names}")
     else:
